@@ -64,10 +64,11 @@ type M map[string]interface{}
 // Rec writes ndjson records. Every record gets a global sequence number taken
 // under one mutex.
 type Rec struct {
-	mu  sync.Mutex
-	w   *bufio.Writer
-	f   *os.File
-	seq int
+	mu    sync.Mutex
+	w     *bufio.Writer
+	f     *os.File
+	seq   int
+	Flush bool // flush after every record (node player: the trace must survive a hung or killed process)
 }
 
 func newRec(path string) *Rec {
@@ -89,6 +90,9 @@ func (r *Rec) Put(m M) {
 	}
 	r.w.Write(buf)
 	r.w.WriteByte('\n')
+	if r.Flush {
+		r.w.Flush()
+	}
 }
 
 func (r *Rec) Close() int {
